@@ -222,6 +222,9 @@ def value_params(tier, seed):
     return out
 
 
+THOROUGH_KEEP = {'*': 0.45}      # see vf/runner.py (time: about 10 minutes per thorough tier)
+
+
 def cases(tier, seed):
     out = []
     for i, (name, p) in enumerate(value_params(tier, seed)):
